@@ -317,6 +317,8 @@ class State:
         s.steps = 0
         s.cand = {}         # term id -> feasible values (over-approximation)
         s.in_merge = False
+        s.files = {}
+        s.fds = {}
         s.run_cache = None  # shared by all paths of one run()
         s.run_keep = None
         s.base_len = 0
@@ -336,6 +338,8 @@ class State:
         t.steps = s.steps
         t.cand = dict(s.cand)
         t.in_merge = s.in_merge
+        t.files = s.files
+        t.fds = s.fds
         t.run_cache = s.run_cache
         t.run_keep = s.run_keep
         t.base_len = s.base_len
